@@ -10,21 +10,19 @@ MANIFEST = {
                  "dispatch models of the RTP/RTCP receive path) + byte-exact trace correspondence with real endpoints under hostile datagrams",
     "text": "SCTP: `rx_never_crashes_proved` - from every endpoint state satisfying the invariant `Inv` (proved to hold after start() and to be "
             "preserved by every datagram, timer expiry and task), NO byte string makes the receive path raise or hang, and the invariant holds "
-            "again afterwards; `reachable_rx_never_crashes_partial` / `rx_never_crashes2_partial` (Props/C05Sctp2) lift this to the weaker invariant "
+            "again afterwards; `reachable_rx_never_crashes_proved` / `rx_never_crashes2_proved` (Props/C05Sctp2) lift this to the weaker invariant "
             "`Inv2` that allows channels still waiting for their stream id and partially reliable traffic (FORWARD-TSN building, _maybe_abandon): "
             "`Inv2` holds from `Ep.init` on, is preserved by EVERY input (datagrams, armed timers, tasks, createDataChannel before and after "
             "start(), send, close while established, bufferedAmountLowThreshold, stop) and no datagram can crash or hang any state reachable that "
-            "way, under two capacity hypotheses (at most 16381 streams carry partially reliable messages; 12*(channels) + 655360 + DATA payload "
-            "of the datagram <= advertised_rwnd, which keeps a stream id < 65536 of the local parity available); every wire parser (SCTP packets/chunks/parameters/RE-CONFIG, RTP, header extensions, RTCP, REMB, H.264 and VP8 "
+            "way, under one capacity hypothesis (at most 16381 streams carry partially reliable messages; the former stream id capacity `Cap` is "
+            "gone since the fix that closes a channel which cannot get a stream id <= 65535 is modelled); every wire parser (SCTP packets/chunks/parameters/RE-CONFIG, RTP, header extensions, RTCP, REMB, H.264 and VP8 "
             "payload descriptors) returns a value or ValueError for every input (`parsers_total`); RTP/RTCP: the dispatch around the parsers "
             "(`_recv_next` demultiplexing, `_handle_rtp_data`, `_handle_rtcp_data`, receiver and sender RTCP/RTP handlers) is total on states "
             "satisfying the component invariants and `still_alive` shows these are preserved. The models are tied to the real code by replaying "
             "recorded runs of REAL endpoints / transports / receivers / senders with hostile datagrams injected in every protocol state.",
     "note": "Partial: `rx_never_crashes_proved` assumes no queued message of a channel still waiting for its stream id and only reliable traffic "
-            "in the send queues; `rx_never_crashes2_partial` drops both but needs the capacity hypothesis `Cap`, which a hostile peer can break "
-            "(it may open 32768 channels on stream ids of the LOCAL parity; the next locally created channel then gets id 65536 and the DATA "
-            "chunk raises struct.error inside _handle_data - genuine defect reproduced on the real code, fixes/C05c-stream-id-exhaustion.patch), "
-            "so the full statements `rx_never_crashes2` / `reachable_rx_never_crashes` stay `def`s; close() outside ESTABLISHED is only shown "
+            "in the send queues; `rx_never_crashes2_proved` / `reachable_rx_never_crashes_proved` drop both (a peer occupying every stream id of the "
+            "local parity is harmless now: the channel is closed); close() outside ESTABLISHED is only shown "
             "to raise nothing but the KeyError of an unregistered channel (see ASSUMPTIONS); work bounds are explicit only for SACK gap expansion, the NACK generator and retransmissions; real "
             "memory use, the decoder thread and PyAV are outside; the CPU-time and still-alive clauses are oracle-checked on the implementation.",
     "design_ref": "DESIGN.md §2 C05, §8.2",
@@ -33,12 +31,11 @@ ASSUMPTIONS = [
     "SCTP part (`rx_never_crashes_proved`): the endpoint state satisfies `Inv` (indices of `dataChannels`/`dcQueue` valid, started => ids and remote "
     "port known, timers armed iff their chunk is present, reassembly TSNs accepted, no queued message of a channel still waiting for its stream id, "
     "nothing partially reliable queued for sending), the datagram is a byte string and the state cookie is at most 1000 bytes",
-    "SCTP part, second layer (`rx_never_crashes2_partial`, `reachable_rx_never_crashes_partial`, Props/C05Sctp2): `Inv2 U e` (as `Inv` without the "
+    "SCTP part, second layer (`rx_never_crashes2_proved`, `reachable_rx_never_crashes_proved`, Props/C05Sctp2): `Inv2 U e` (as `Inv` without the "
     "last two clauses, plus: every chunk / queued message subject to partial reliability is on a stream of the fixed set `U`, adjacent chunks of "
     "sent_queue ++ outbound_queue are on the same stream or a message boundary, FORWARD-TSN streams are distinct members of `U`, an armed T1/T2 "
-    "holds a serialisable chunk, queued retransmission tasks are serialisable) with the capacity hypotheses `U.length <= 16381` and "
-    "`Cap e k`: 12*(registered channels + channels waiting for an id) + 655360 + k <= advertised_rwnd, k = DATA payload bytes of the datagram "
-    "(12 for createDataChannel); NOT preserved by hostile datagrams (see note); API preconditions of the run theorem: createDataChannel with "
+    "holds a serialisable chunk, queued retransmission tasks are serialisable) with the capacity hypothesis `U.length <= 16381`; "
+    "API preconditions of the run theorem: createDataChannel with "
     "label/protocol < 65536 bytes, 32-bit reliability parameter, explicit id in 0..65534; send/close/threshold on existing channel objects; "
     "partially reliable sends only on streams of `U`; close() while ESTABLISHED; timers fire only when armed; before start() only "
     "createDataChannel and its flush task",
@@ -74,8 +71,8 @@ def oracle_alive(case, run):
 class World(S.WorldComponent):
     name = "sctp"
     prop = "C05"
-    theorems = ["rx_never_crashes_proved", "rx_no_hang", "sctp_parsers_total", "rx_never_crashes2_partial",
-                "reachable_rx_never_crashes_partial"]
+    theorems = ["rx_never_crashes_proved", "rx_no_hang", "sctp_parsers_total", "rx_never_crashes2_proved",
+                "reachable_rx_never_crashes_proved"]
     mix = [("hostile", False, 2), ("hostile-benign", False, 3), ("hostile-benign", True, 1)]
     quick = (40, 220)
     thorough = (400, 400)
